@@ -84,11 +84,13 @@ impl Geometric {
         } else {
             let (pi, k) = {
                 // choose smallest k such that pi = (1 - p)^(2^k) <= 0.5
+                // (via ln(1 - p): the rounding error of `1 - p` would be amplified 2^k-fold)
+                let ln_q = (-p).ln_1p();
                 let mut k = 1;
-                pi = pi * pi;
+                pi = (2.0 * ln_q).exp();
                 while pi > 0.5 {
                     k += 1;
-                    pi = pi * pi;
+                    pi = ((1u64 << k) as f64 * ln_q).exp();
                 }
                 (pi, k)
             };
@@ -142,11 +144,8 @@ impl Distribution<u64> for Geometric {
         // fewer iterations on average.                 ~ October 28, 2020
         let m = loop {
             let m = rng.random::<u64>() & ((1 << k) - 1);
-            let p_reject = if m <= i32::MAX as u64 {
-                (1.0 - p).powi(m as i32)
-            } else {
-                (1.0 - p).powf(m as f64)
-            };
+            // (1 - p)^m via ln(1 - p), see `new`
+            let p_reject = (m as f64 * (-p).ln_1p()).exp();
 
             let u = rng.random::<f64>();
             if u < p_reject {
